@@ -32,9 +32,9 @@ LEVEL = "model_checking"
 KINDS = ["B", "KH", "KQ", "KC", "H", "O", "OR"]
 ACTIONS = ["Defaults", "PerRequest", "Refresh", "Plugin", "Shortcut", "Send", "Judge"]
 # hold for the code path as written
-HOLDING = ["TypeOK", "MachineIsModel", "CallerArgsUntouched", "TokenFresh", "DefaultsAsConfigured", "RequestIsolation"]
+HOLDING = ["TypeOK", "MachineIsModel", "KeyPlacement", "CallerArgsUntouched", "TokenFresh", "DefaultsAsConfigured", "RequestIsolation"]
 HOLDING_PROPS = ["DefaultsUnchanged"]
-FIXED = HOLDING + ["SentEqualsFold", "KeyPlacement", "DesignOK"]
+FIXED = HOLDING + ["SentEqualsFold", "DesignOK"]
 CLAUSES = [
     "C17.header_precedence",
     "C17.plugin_order",
